@@ -254,7 +254,9 @@ func runCheck(P *Program, verif, prop, tier string, seed int, verbose bool, t0 t
 		}}
 	os.MkdirAll(filepath.Join(verif, "evidence"), 0o755)
 	b, _ := json.MarshalIndent(ev, "", " ")
-	os.WriteFile(filepath.Join(verif, "evidence", prop+".json"), append(b, '\n'), 0o644)
+	if os.Getenv("GOVC_NOEVIDENCE") == "" { // the seed / self-test scripts run against patched trees: they must not leave their runs behind as evidence
+		os.WriteFile(filepath.Join(verif, "evidence", prop+".json"), append(b, '\n'), 0o644)
+	}
 	// detailed obligation log next to the evidence (not the evidence file itself)
 	if verbose {
 		for _, o := range obls {
